@@ -565,6 +565,9 @@ type semCase struct {
 	Expect expectation         `json:"expect"`
 	Shape  string              `json:"shape"`
 	NOps   int                 `json:"nops"`
+	// GenRoutes: whether the payload started as trusted HTML, and the payload
+	Trusted *bool    `json:"trusted"`
+	Payload []string `json:"payload"`
 }
 
 func (sc *semCase) sources() map[string]string {
